@@ -83,7 +83,9 @@ class Reproduced(BaseException):
 
 
 class Inconclusive(BaseException):
-    pass
+    def __init__(self, msg, sizes=None):
+        BaseException.__init__(self, msg)
+        self.sizes = sizes
 
 
 class HInputs(Inputs):
@@ -151,7 +153,8 @@ class HInputs(Inputs):
             return
         if r == z3.unknown:
             self.unknown += 1
-            raise Inconclusive("solver unknown at check %r" % label)
+            raise Inconclusive("solver unknown at check %r" % label,
+                               self.sizes())
         self.sat += 1
         raise CexFound(label, self.model_values(m), m, None, self.sizes())
 
@@ -236,6 +239,7 @@ def run_job(job):
     known = load_known()
     signal.signal(signal.SIGALRM, _alarm)
     signal.alarm(int(obl.timeout[ti]))
+    stubs = []
     try:
         proxies, stubs = obl.patches(shape)
         skip_known = []
@@ -289,21 +293,8 @@ def run_job(job):
                 # arithmetic does not share).  Search for a concrete witness
                 # natively: a replayed violation is a violation however it
                 # was found; without one the job is inconclusive.
-                import random as _random
-                rnd = _random.Random(int(seed) + 12345)
-                found = None
-                for _try in range(40):
-                    vals = dict((nm, rnd.getrandbits(bits))
-                                for nm, bits in cex.sizes.items())
-                    if _try % 2:
-                        # keep the solver's values for half of the variables
-                        for nm in list(vals):
-                            if rnd.random() < 0.5 and nm in cex.values:
-                                vals[nm] = cex.values[nm]
-                    rep2 = replay_native(obl, shape, vals, None, stubs)
-                    if rep2["reproduced"]:
-                        found = (vals, rep2)
-                        break
+                found = witness_search(obl, shape, cex.sizes, cex.values,
+                                       seed, stubs)
                 if found:
                     res["status"] = "violation"
                     res["detail"] = dict(
@@ -327,6 +318,17 @@ def run_job(job):
     except Inconclusive as e:
         res["status"] = "inconclusive"
         res["detail"] = dict(reason=str(e))
+        if e.sizes:
+            # the solver gave up (unknown/timeout): a pass cannot be
+            # declared, but a concrete violation may still be exhibited
+            found = witness_search(obl, shape, e.sizes, {}, seed, stubs)
+            if found:
+                res["status"] = "violation"
+                res["detail"] = dict(
+                    obligation=oid, shape=shape, label=found[1]["label"],
+                    inputs=found[0], native=found[1],
+                    note="solver answered unknown; witness found by native "
+                         "search")
     except Unsupported as e:
         res["status"] = "inconclusive"
         res["detail"] = dict(reason="unsupported: %s" % e,
@@ -339,6 +341,23 @@ def run_job(job):
         signal.alarm(0)
     res["wall_s"] = time.time() - t0
     return res
+
+
+def witness_search(obl, shape, sizes, near, seed, stubs, tries=40):
+    """native search for a concrete violating input (random values, half of
+    the time mixed with the solver's assignment)"""
+    import random as _random
+    rnd = _random.Random(int(seed) + 12345)
+    for _try in range(tries):
+        vals = dict((nm, rnd.getrandbits(bits)) for nm, bits in sizes.items())
+        if _try % 2 and near:
+            for nm in list(vals):
+                if rnd.random() < 0.5 and nm in near:
+                    vals[nm] = near[nm]
+        rep = replay_native(obl, shape, vals, None, stubs)
+        if rep["reproduced"]:
+            return vals, rep
+    return None
 
 
 def replay_native(obl, shape, values, model, stubs=None, uf_table=None):
